@@ -1047,6 +1047,23 @@ void mon_wire_wellformed(const Run& run, const Ix&, Verdicts& v, vu::Result& res
         }
         for (auto& is : k.dec.protocol_issues)
             v.add("C17", "C17:wire:protocol-issue:" + std::string(ref::type_name(k.dec.pkt.type)), std::string(ref::type_name(k.dec.pkt.type)) + " on the wire is well formed but not allowed: " + is);
+        if (k.dec.pkt.type == ref::AUTH) {
+            // says what was asked: the configured method, the data the authenticator supplied, a reason code a Client may use
+            res.count("auth_packets_checked");
+            std::string method, data, want = run.sc->ccfg.use_authenticator ? run.sc->ccfg.auth_method : "";
+            for (auto& x : k.dec.pkt.props) { if (x.id == 0x15) method = x.s1; if (x.id == 0x16) data = x.s1; }
+            bool after_connack = false;
+            for (auto& b : h.bpkts) if (b.conn == k.conn && b.pkt.type == ref::CONNACK && b.delivered_t >= 0 && b.delivered_seq < k.seq) after_connack = true;
+            if (after_connack && k.dec.pkt.rc == 0x19) res.count("reauthentications_started");
+            if (method != want) v.add("C17", "C17:wire-contents:auth-method", "AUTH carries authentication method \"" + method + "\", configured is \"" + want + "\"");
+            if (data.rfind("client-data-", 0) != 0) v.add("C17", "C17:wire-contents:auth-data", "AUTH carries authentication data the authenticator did not supply: " + vu::hex(data, 24));
+            // reason code: 0x18 answers a challenge of the Server (always so during the handshake), 0x19 starts a re-authentication
+            int challenges = 0, answered = 0;
+            for (auto& b : h.bpkts) if (b.conn == k.conn && b.pkt.type == ref::AUTH && b.pkt.rc == 0x18 && b.wellformed && b.delivered_t >= 0 && b.delivered_seq < k.seq) ++challenges;
+            for (auto& q : h.cpkts) if (q.conn == k.conn && q.seq < k.seq && q.dec.status == ref::Status::ok && q.dec.pkt.type == ref::AUTH && q.dec.pkt.rc == 0x18) ++answered;
+            uint8_t expect = (!after_connack || challenges > answered) ? 0x18 : 0x19;
+            if (k.dec.pkt.rc != expect) v.add("C17", "C17:wire-contents:auth-reason-code", "AUTH with reason code 0x" + vu::hex(std::string(1, char(k.dec.pkt.rc))) + (after_connack ? " after" : " before") + " the CONNACK where 0x" + vu::hex(std::string(1, char(expect))) + " is due (" + std::to_string(challenges) + " challenges delivered, " + std::to_string(answered) + " answered)");
+        }
     }
 }
 
